@@ -101,8 +101,8 @@ func (g *IG) Reach(start []int, avoidN map[int]bool, avoidE map[edge]bool) map[i
 	for len(stack) > 0 {
 		n := stack[len(stack)-1]
 		stack = stack[:len(stack)-1]
-		if avoidN[n] && !first[n] {
-			continue
+		if avoidN[n] {
+			continue // an avoided node is reached but never expanded — also when it is a start node
 		}
 		for _, s := range g.Succ[n] {
 			if avoidE[edge{n, s}] || seen[s] {
@@ -471,7 +471,7 @@ func atomicCall(in ssa.Instruction) *atomicOp {
 	}
 	obj, _ := f.Object().(*types.Func)
 	if obj == nil || obj.Pkg() == nil || obj.Pkg().Path() != "sync/atomic" {
-		return nil
+		return thinAtomicWrapper(c, f)
 	}
 	name := obj.Name()
 	if len(c.Args) == 0 {
@@ -1032,8 +1032,21 @@ func resolveFreeVar(fn *ssa.Function, v ssa.Value) ssa.Value {
 // ifs lists the If instructions of every function of the graph.
 func (g *IG) ifs() []*ssa.If {
 	var out []*ssa.If
+	seen := map[*ssa.If]bool{}
 	for _, f := range g.Fns {
-		out = append(out, ifsOf(f)...)
+		for _, i := range ifsOf(f) {
+			if !seen[i] {
+				seen[i] = true
+				out = append(out, i)
+			}
+		}
+	}
+	// virtual branch nodes that exist in this graph only (a spliced helper's result decided at the caller's branch)
+	for _, v := range g.virt {
+		if !seen[v.If] {
+			seen[v.If] = true
+			out = append(out, v.If)
+		}
 	}
 	return out
 }
@@ -1269,33 +1282,116 @@ func (p *Program) igxSkip(fn *ssa.Function, skip map[*ssa.Function]bool) *IG {
 			if !pureRB {
 				continue
 			}
-			for k, pred := range yb.Preds {
-				if k >= len(ph.Edges) {
+			// every edge of the graph that arrives at the return block — from a direct predecessor, or from further back through
+			// phi-only join blocks that edge resolution has already skipped — carries a definite operand of the returned phi
+			pureJump := func(bb *ssa.BasicBlock) bool {
+				if len(bb.Instrs) == 0 {
+					return false
+				}
+				if _, isJ := bb.Instrs[len(bb.Instrs)-1].(*ssa.Jump); !isJ {
+					return false
+				}
+				for _, in := range bb.Instrs[:len(bb.Instrs)-1] {
+					switch in.(type) {
+					case *ssa.Phi, *ssa.DebugRef:
+					default:
+						return false
+					}
+				}
+				return true
+			}
+			predIdx := func(bb, of *ssa.BasicBlock) int {
+				idx := -1
+				for i, q := range of.Preds {
+					if q == bb {
+						if idx >= 0 {
+							return -1
+						}
+						idx = i
+					}
+				}
+				return idx
+			}
+			operandFrom := func(bb *ssa.BasicBlock) ssa.Value {
+				if k := predIdx(bb, yb); k >= 0 && k < len(ph.Edges) {
+					return ph.Edges[k]
+				}
+				for k, mid := range yb.Preds {
+					if k >= len(ph.Edges) || !pureJump(mid) {
+						continue
+					}
+					j := predIdx(bb, mid)
+					if j < 0 {
+						continue
+					}
+					v := ph.Edges[k]
+					if mph, isPhi := v.(*ssa.Phi); isPhi && mph.Block() == mid && j < len(mph.Edges) {
+						v = mph.Edges[j]
+					}
+					return v
+				}
+				return nil
+			}
+			for n := range g.Succ {
+				hits := false
+				for _, t := range g.Succ[n] {
+					if t == first[yb] {
+						hits = true
+					}
+				}
+				if !hits || n >= len(g.Nodes) {
 					continue
 				}
-				bv, isC := constBool(ph.Edges[k])
-				if !isC {
+				if _, isVirt := g.Nodes[n].(*ssa.If); isVirt && g.Nodes[n].Block() == yb {
 					continue
 				}
+				bb := g.Nodes[n].Block()
+				if bb == nil || bb.Parent() != pr.y || bb == yb {
+					continue
+				}
+				op := operandFrom(bb)
+				if op == nil {
+					continue
+				}
+				if _, isPhi := op.(*ssa.Phi); isPhi {
+					continue
+				}
+				// when both successors of a branch arrive here the operand is per edge, not per block: leave it
 				cnt := 0
-				for _, sb := range pred.Succs {
-					if sb == yb {
+				for _, t := range g.Succ[n] {
+					if t == first[yb] {
 						cnt++
 					}
 				}
 				if cnt != 1 {
 					continue
 				}
-				holds := (fc.Op == token.NEQ) == bv
-				si := 1
-				if holds {
-					si = 0
+				var tgt int
+				if bv, isC := constBool(op); isC {
+					holds := (fc.Op == token.NEQ) == bv
+					si := 1
+					if holds {
+						si = 0
+					}
+					tgt = g.targetNode(p.resolveEdge(pr.b, pr.b.Succs[si]), first)
+				} else {
+					bt, isB := op.Type().Underlying().(*types.Basic)
+					if !isB || bt.Kind() != types.Bool {
+						continue
+					}
+					tk, fk := 0, 1
+					if fc.Op != token.NEQ {
+						tk, fk = 1, 0
+					}
+					v := &vIf{If: &ssa.If{Cond: op}}
+					setInstrBlock(v.If, yb)
+					v.T = p.resolveEdge(pr.b, pr.b.Succs[tk])
+					v.F = p.resolveEdge(pr.b, pr.b.Succs[fk])
+					tgt = g.targetNode(edgeTarget{v: v}, first)
 				}
-				tgt := g.targetNode(p.resolveEdge(pr.b, pr.b.Succs[si]), first)
-				ln := first[pred] + len(pred.Instrs) - 1
-				for j, t := range g.Succ[ln] {
+				for j, t := range g.Succ[n] {
 					if t == first[yb] {
-						g.Succ[ln][j] = tgt
+						g.Succ[n][j] = tgt
 					}
 				}
 			}
@@ -1412,6 +1508,11 @@ func (p *Program) mustDo(fn *ssa.Function, pred func(ssa.Instruction) bool, dept
 	}
 	if len(via) == 0 {
 		return false
+	}
+	for _, e := range g.entry() {
+		if via[e] {
+			return true // the very first instruction is the effect (Reach would expand an avoided start node)
+		}
 	}
 	return !anyIn(g.Reach(g.entry(), via, nil), g.Exits)
 }
@@ -1688,4 +1789,73 @@ func sameBlockDef(v ssa.Value) ssa.Value {
 		}
 	}
 	return v
+}
+
+// nilArgEdges: edges of g on which a parameter (or the receiver) of the root function is asserted to be nil. A path through
+// such an edge lies outside the function's contract (every caller in the module passes a live object); "on every path" rules
+// do not quantify over it. Only the nil-ness of a parameter itself counts — not of a field, and not any other condition.
+func (g *IG) nilArgEdges() map[edge]bool {
+	params := map[ssa.Value]bool{}
+	for _, prm := range g.Fn.Params {
+		switch prm.Type().Underlying().(type) {
+		case *types.Pointer, *types.Interface, *types.Map, *types.Slice, *types.Signature, *types.Chan:
+			params[prm] = true
+		}
+	}
+	return g.edgesWhere(func(f cmpFact) bool {
+		return f.IsNil && f.Op == token.EQL && params[strip(f.X)]
+	})
+}
+
+
+// thinAtomicWrapper: the callee is a one-line method around one atomic operation on a field of its receiver with constant
+// operands ("tryAcquire() bool { return atomic.CompareAndSwapUint32(&m.status, idle, processing) }"); the call then IS that
+// operation, performed on the caller's receiver argument, and its value is the operation's value.
+func thinAtomicWrapper(c *ssa.CallCommon, f *ssa.Function) *atomicOp {
+	if len(c.Args) != 1 {
+		return nil
+	}
+	inner := thinAtomicBody(f)
+	if inner == nil {
+		return nil
+	}
+	return &atomicOp{Op: inner.Op, Addr: inner.Addr, Args: inner.Args, Call: c, Field: inner.Field, Base: c.Args[0]}
+}
+
+// thinAtomicBody: f is such a wrapper; returns the operation it performs.
+func thinAtomicBody(f *ssa.Function) *atomicOp {
+	if theProgram == nil || f == nil || !theProgram.inModule(f) || len(f.Blocks) != 1 || f.Signature.Recv() == nil || len(f.Params) != 1 {
+		return nil
+	}
+	var inner *atomicOp
+	var innerCall ssa.Value
+	for _, in := range f.Blocks[0].Instrs {
+		switch x := in.(type) {
+		case *ssa.FieldAddr, *ssa.DebugRef:
+		case *ssa.Call:
+			if inner != nil {
+				return nil
+			}
+			a := atomicCall(x)
+			if a == nil || a.Field == nil || a.Base == nil || strip(a.Base) != ssa.Value(f.Params[0]) {
+				return nil
+			}
+			for _, arg := range a.Args {
+				if _, isK := arg.(*ssa.Const); !isK {
+					return nil
+				}
+			}
+			inner, innerCall = a, x
+		case *ssa.Return:
+			if inner == nil {
+				return nil
+			}
+			if len(x.Results) > 1 || (len(x.Results) == 1 && x.Results[0] != innerCall) {
+				return nil
+			}
+		default:
+			return nil
+		}
+	}
+	return inner
 }
